@@ -40,7 +40,7 @@ def run(ctx):
     else:
         tracep = ctx.tmp + "/trace.ndjson"
         env = {"VF_MODE": "rt", "VF_OUT": tracep, "VF_SEED": ctx.seed, "VF_TYPES": ",".join(names),
-               "VF_N": 8 if ctx.quick else 160, "VF_BYTES_PER_TYPE": 12000 if ctx.quick else 250000}
+               "VF_N": 8 if ctx.quick else 300, "VF_BYTES_PER_TYPE": 12000 if ctx.quick else 400000}
         vf.run_driver(ctx, binp, "TestRun", env=env, timeout=1200)
         lines = vf.read_lines(tracep)
     ctx.cov["evaluations"] = len(lines)
